@@ -69,7 +69,10 @@ def check_dispositions(out: Outcome, tr: scenario.Trace, case: dict, *, strict_f
         for e in bodies:
             if e.after_eager_marker:
                 out.v("ran-after-eager", f"{tag}: actor body continued after an eager response (execution {e.n})")
-        for s, e in zip([s for s in steps if s.body_runs or s.outcome.get("k") == "depfail"], execs):
+        for e in execs:
+            if e.actor == "provider" and e.after_eager_marker:
+                out.v("ran-after-eager", f"{tag}: a dependency answered eagerly and kept running afterwards (execution {e.n})")
+        for s, e in zip([s for s in steps if s.body_runs or s.outcome.get("k") in ("depfail", "depeager")], execs):
             if e.tried >= 0 and e.tried != s.tried:
                 out.v("counter-seen", f"{tag}: execution {e.n} saw already_tried={e.tried}, expected {s.tried}")
                 break
@@ -97,6 +100,8 @@ def classify(out: Outcome, case: dict) -> None:
                 kinds.add("timeout")
             if s.outcome.get("k") == "depfail":
                 kinds.add("depfail")
+            if s.outcome.get("k") == "depeager":
+                kinds.add("depeager")
         if j.get("badargs"):
             kinds.add("badargs")
         if j.get("defer_by") is not None:
